@@ -327,6 +327,11 @@ def fam_fields(tier, seed):
         ("clo_two_fields_partial", lambda: Seq(Clo(Seq(Call("A", "x"), Call("B", "y"), Lit("c"))), Lit("a"))),
         ("choice_two_fields_partial", lambda: Choice(Seq(Call("A", "x"), Call("B", "y"), Lit("c")), Seq(Call("A", "x"), Lit("c")))),
         ("choice_backtrack_field", lambda: Choice(Seq(Call("A", "x"), Lit("c")), Seq(Call("A", "y"), Call("B", "x")))),
+        # an empty alternative always matches: written first it makes the later ones unreachable
+        ("leading_empty_alt", lambda: Seq(Choice(Seq(), Call("A", "x")), Call("B", "y"))),
+        ("leading_empty_alt_top", lambda: Choice(Seq(), Call("A", "x"), Call("B", "x"))),
+        ("middle_empty_alt", lambda: Seq(Choice(Call("A", "x"), Seq(), Call("B", "x")), Opt(Call("B", "y")))),
+        ("trailing_empty_alt_in_clo", lambda: Seq(Clo(Seq(Choice(Call("A", "x"), Seq()), Lit("c"))), Opt(Choice(Seq(), Call("B", "y"))))),
     ]
     out = []
     seen = set()
@@ -557,6 +562,11 @@ def fam_memo(tier, seed):
                 # more than 20 nested rule calls (linear for every memo subset: the first alternative succeeds)
                 g.real_extra.append(list("a" * 23 + "b" * 23))
                 g.real_extra.append(list("a" * 26 + "b" * 25 + "c"))
+                # several hundred nested rule calls, then shallower ones again: nothing learnt from a deep
+                # parse (or from refusing one) may show in a later parse of the same thread
+                for dp in ((300, 280, 150) if tier == "quick" else (300, 700, 280, 1000, 150)):
+                    g.real_extra.append(list("a" * dp + "b" * dp))
+                g.real_extra.append(list("a" * 300 + "b" * 299))
             if name in ("memo_in_closure", "failing_prefix", "three_level"):
                 # inputs longer than 256 / 512 bytes: a cache keyed on part of the offset shows only there
                 lr_ = random.Random(seed * 7919 + 41 + len(name))
@@ -627,6 +637,18 @@ def lr_bases():
                                        Rule("P", Choice(Seq(Call("P", "parent", boxed=True), Lit("/"), Call("N", "name")),
                                                         Opt(Call("N", "name"))), no_skip_ws=True, leftrec=True),
                                        Rule("N", Clo(Lit("a"), plus=True), string=True, no_skip_ws=True)], "S", ["a", "/", "x"], True))
+    # the tail after the recursive reference can match nothing: a growth step that ends where the previous
+    # one ended is not a growth and must be dropped, not returned
+    out.append(("nullable_tail_opt", [Rule("A", Choice(Seq(Call("A", "l", boxed=True), Opt(Lit("x"))), Lit("b")),
+                                           export=True, no_skip_ws=True, leftrec=True)], "A", ["b", "x", "y"], True))
+    out.append(("nullable_tail_clo_indirect", [Rule("S", Seq(Call("E", "e"), Opt(Lit("."))), export=True, no_skip_ws=True),
+                                               Rule("E", Choice(Call("Ext", "@"), Call("Atom", "@")), no_skip_ws=True, leftrec=True),
+                                               Rule("Ext", Seq(Call("E", "left", boxed=True), Clo(Call("X", "xs"))), no_skip_ws=True),
+                                               Rule("Atom", Lit("b"), no_skip_ws=True), Rule("X", Lit("x"), no_skip_ws=True)],
+                "S", ["b", "x", "."], True))
+    out.append(("nullable_tail_position", [Rule("O", Choice(Seq(Call("O", "left", boxed=True), Opt(Seq(Call("M", "op"), Call("N", "right")))),
+                                                           Call("N", "num")), export=True, leftrec=True, position=True),
+                                           Rule("M", Lit("-")), Rule("N", Lit("n"), position=True)], "O", ["n", "-", " "], True))
     out.append(("neg_guard", [Rule("A", Choice(Seq(Call("A", "l", boxed=True), Lit("x")), Seq(Neg(Call("A")), Lit("b"))),
                                    export=True, no_skip_ws=True, leftrec=True)], "A", ["b", "x"], True))
     return out
@@ -936,6 +958,24 @@ def fam_user(tier, seed):
                                   checks=[{"o": "span_le", "n": 2, "path": "@chk_span", "name": "@chk_span",
                                            "rust": "pub fn chk_span(v: &W) -> bool { logged(\"chk_span\", v, v.position.end - v.position.start <= 2) }"}])],
        ["a", " ", "b"])
+    # checks on @leftrec rules: every growth step is checked; a step that fails its check ends the growth and
+    # the previous result stands
+    mk("chk_leftrec_span", [Rule("S", Seq(Call("A", "a"), Call("R", "rest")), export=True, no_skip_ws=True),
+                            Rule("A", Choice(Seq(Call("A", "l", boxed=True), Lit("x")), Lit("b")), no_skip_ws=True, leftrec=True, position=True,
+                                 checks=[{"o": "span_le", "n": 3, "path": "@chk_lspan", "name": "@chk_lspan",
+                                          "rust": "pub fn chk_lspan(v: &A) -> bool { logged(\"chk_lspan\", v, v.position.end - v.position.start <= 3) }"}]),
+                            Rule("R", Clo(Call("char")), string=True, no_skip_ws=True)], ["b", "x", "y"])
+    mk("chk_leftrec_enum", [Rule("S", Seq(Call("E", "e"), Call("R", "rest")), export=True, no_skip_ws=True),
+                            Rule("E", Choice(Call("P", "@"), Call("N", "@")), no_skip_ws=True, leftrec=True,
+                                 checks=[{"o": "variant_is", "variant": "N", "path": "@chk_lvar", "name": "@chk_lvar",
+                                          "rust": "pub fn chk_lvar(v: &E) -> bool { logged(\"chk_lvar\", v, matches!(v, E::N(_))) }"}]),
+                            Rule("P", Seq(Call("E", "l", boxed=True), Lit("+"), Call("N", "r")), no_skip_ws=True),
+                            Rule("N", Lit("n"), no_skip_ws=True),
+                            Rule("R", Clo(Call("char")), string=True, no_skip_ws=True)], ["n", "+", "x"])
+    mk("chk_leftrec_seed_rejected", [Rule("S", Choice(Call("A", "a"), Call("R", "rest")), export=True, no_skip_ws=True),
+                                     Rule("A", Choice(Seq(Call("A", "l", boxed=True), Lit("x")), Lit("b")), no_skip_ws=True, leftrec=True,
+                                          checks=[never]),
+                                     Rule("R", Clo(Call("char")), string=True, no_skip_ws=True)], ["b", "x"])
     # @char rule checks see the next character
     mk("chk_char", [Rule("S", Seq(Call("C", "c"), Opt(Call("C", "d"))), export=True),
                     CharRule("C", [("range", "a", "z"), ("lit", "1")],
@@ -1207,6 +1247,19 @@ def fam_routes(tier, seed):
                              Rule("Xx", Lit("x")), Rule("Yy", Lit("y"))], ["x", "y", " "])
     mk("keywords", [Rule("S", Seq(Call("type", "fn"), Opt(Call("match", "loop"))), export=True),
                     Rule("type", Lit("t")), Rule("match", Lit("m"))], ["t", "m", " "])
+    # user functions reached by path from every route (library functions: generic over the rule type)
+    P = "verif_common::oracles::"
+    always = {"o": "always", "path": P + "chk_always", "name": P + "chk_always"}
+    even = {"o": "str_even", "path": P + "chk_str_even", "name": P + "chk_str_even"}
+    mk("user_functions", [Rule("S", Seq(Call("N", "n"), Opt(Call("T", "t")), Opt(Call("O", "o")), Opt(Call("D", "d")), Opt(Call("C", "c"))),
+                               export=True, checks=[always]),
+                          Rule("N", Seq(Lit("a"), Opt(Call("T", "t"))), checks=[always, always]),
+                          Rule("T", Clo(Lit("b"), plus=True), string=True, no_skip_ws=True, checks=[even]),
+                          Rule("O", Choice(Call("N", "@"), Call("T", "@")), checks=[always]),
+                          Rule("M", Seq(Lit("("), Call("N", "@"), Lit(")")), checks=[always], memoize=True),
+                          ExternRule("D", {"o": "digits", "path": P + "ext_digits", "nullable": False}),
+                          CharRule("C", [("range", "a", "c")], checks=[{"o": "always", "path": P + "cchk_always", "name": P + "cchk_always"}])],
+       ["a", "b", "1", " "], maxlen=3)
     return out
 
 
@@ -1279,6 +1332,15 @@ def fam_types(tier, seed):
     for kw in dict.fromkeys(kws):
         g = Grammar("x", [Rule("S", Seq(Call(kw, kw), Opt(Call(kw, "o")), Clo(Call("Other", kw))), export=True),
                           Rule(kw, Lit("k"), position=True), Rule("Other", Call(kw, "@"))], meta={"shape": "keyword_" + kw})
+        g.alpha = ["k"]
+        add(g)
+    # every keyword at once, in chunks: rule names, field names, override variants, multi-type field enums
+    for i in range(0, len(RAW_OK), 8):
+        ch = RAW_OK[i:i + 8]
+        rules = [Rule("S", Seq(*([Call(k, k) for k in ch] + [Call("Any", "any"), Clo(Choice(*[Call(k, ch[0]) for k in ch[:3]]))])), export=True),
+                 Rule("Any", Choice(*[Call(k, "@") for k in ch]))]
+        rules += [Rule(k, Lit("k%d" % j), position=(j % 2 == 0)) for j, k in enumerate(ch)]
+        g = Grammar("x", rules, meta={"shape": "keywords_chunk_%d" % (i // 8)})
         g.alpha = ["k"]
         add(g)
     for nm in TEMPLATE_LOCALS:
@@ -1406,6 +1468,9 @@ def meta_sources():
                        Rule("Comment", Seq(Lit("#"), Clo(Seq(Neg(Lit("\n")), Call("char"))), Lit("\n")), no_skip_ws=True),
                        Rule("S", Seq(Neg(Seq(Call("I"), Eoi())), Clo(Seq(Call("I", "m"), Opt(Lit(","))), plus=True)), export=True),
                        Rule("I", Clo(Choice(Range("0", "9"), Lit("_")), plus=True), string=True, no_skip_ws=True, position=True)]),
+        Grammar("m5", [Rule("S", Choice(Seq(), Lit("a"), Lit("b")), export=True),
+                       Rule("T", Seq(Choice(Seq(), Call("S", "s")), Opt(Choice(Seq(), Lit("x"))), Clo(Choice(Seq(), Seq(), Lit("y"))),
+                                     Choice(Seq(), Seq(Neg(Choice(Seq(), Lit("z"))), Call("S", "u", boxed=True)))))]),
         Grammar("m4", [Rule("S", Choice(Seq(Choice(Lit("a"), Lit("b")), Choice(Seq(Lit("c"), Lit("d")), Lit("e"))), Opt(Choice(Lit("f"), Seq()))),
                             export=True)]),
     ]
